@@ -296,6 +296,11 @@ impl<T> RcInner<T> {
 impl<T: RcObject> RcInner<T> {
     #[inline]
     pub(crate) unsafe fn decrement_strong(ptr: *mut Self, count: u32, guard: Option<&Guard>) {
+        // The epoch stamped on the count must be read inside a critical section: read by an
+        // unpinned thread it can be arbitrarily stale by the time it is published.
+        let Some(guard) = guard else {
+            return Self::decrement_strong(ptr, count, Some(&cs()));
+        };
         #[cfg(circ_verif)]
         crate::verif::pre(crate::verif::site::U_DEC_EPOCH);
         let epoch = global_epoch();
@@ -331,11 +336,7 @@ impl<T: RcObject> RcInner<T> {
             guard.incr_manual_collection();
         };
 
-        if let Some(guard) = guard {
-            trigger_recl(guard)
-        } else {
-            trigger_recl(&cs())
-        }
+        trigger_recl(guard)
     }
 
     #[inline]
